@@ -113,6 +113,15 @@ def run(check):
         mm = check.rng.choice(extremes_i) if k % 2 else check.rng.randint(I64[0], I64[1])
         raw_req.append({"op": "int", "f": "i54cmpraw", "n": str(a), "m": str(mm)})
         raw_meta.append(("i54cmpraw", a, mm))
+    # and the full cross product of the boundary values of the range (0, the default value, among them) with the extremes
+    for a in (0, 1, 2, U53_MAX - 1, U53_MAX):
+        for mm in extremes_u:
+            raw_req.append({"op": "int", "f": "u53cmpraw", "n": str(a), "m": str(mm)})
+            raw_meta.append(("u53cmpraw", a, mm))
+    for a in (-U53_MAX, -U53_MAX + 1, -1, 0, 1, U53_MAX - 1, U53_MAX):
+        for mm in extremes_i:
+            raw_req.append({"op": "int", "f": "i54cmpraw", "n": str(a), "m": str(mm)})
+            raw_meta.append(("i54cmpraw", a, mm))
     for (op, a, mm), ra in zip(raw_meta, runner(raw_req)):
         check.saw((op, a, mm), nontrivial=not (-U53_MAX <= mm <= U53_MAX))
         check.count(op)
